@@ -187,3 +187,8 @@ def run(ctx, rep):
         "writer and reader alike still changes the reader's record)")
     n = run_wiresig(ctx, rep, "LEDGER-WIRESIG", None, ledger=True)
     rep.floor("LEDGER-WIRESIG reader records (pairs x versions)", n, tab.get("wiresig_floor", 250))
+
+    from ..rejects import run_rejects
+    rep.rules_text.append("REJECT-LEDGER: every constant-bound rejection of a stream-derived field in the readers (a branch outcome that only reaches failing returns on `field op constant`) is listed in the frozen ledger rules/rejects.json; a new one narrows what the reader accepts")
+    n_rej = run_rejects(ctx, rep, "REJECT-LEDGER", None)
+    rep.floor("constant-bound rejections inspected", n_rej, 30)
